@@ -167,6 +167,19 @@ def _time_model(t):
     return ("dt", d.replace(tzinfo=None).isoformat(), None if off is None else int(off.total_seconds()))
 
 
+# element convenience methods: relation kind -> (class of the receiving element, method name, accepts attributes=)
+CONVENIENCE = {
+    "generation": ("entity", "wasGeneratedBy", True), "invalidation": ("entity", "wasInvalidatedBy", True),
+    "derivation": ("entity", "wasDerivedFrom", True), "attribution": ("entity", "wasAttributedTo", True),
+    "alternate": ("entity", "alternateOf", False), "specialization": ("entity", "specializationOf", False),
+    "membership": ("entity", "hadMember", False),
+    "usage": ("activity", "used", True), "communication": ("activity", "wasInformedBy", True),
+    "start": ("activity", "wasStartedBy", True), "end": ("activity", "wasEndedBy", True),
+    "association": ("activity", "wasAssociatedWith", True),
+    "delegation": ("agent", "actedOnBehalfOf", True),
+}
+
+
 # ---------------------------------------------------------------------------- interpreter
 def build(recipe, inherit=True, on_step=None):
     """Interpret the recipe with the library. Raises whatever the library raises."""
@@ -333,7 +346,29 @@ def _apply_rec2(b, op, inherit, dry=False):
         m["attrs"].append((name_uri(nm), mval(val)))
     if dry:
         return None
-    if via == "new_record" or (ident is not None and not fac_id):
+    conv = None
+    if via == "convenience" and ident is None and kind in CONVENIENCE and fargs and fargs[0][0] in formal:
+        cls_kind, meth_name, takes_attrs = CONVENIENCE[kind]
+        els = [(s, r, mm) for (s, r, mm) in b.records if mm["kind"] == cls_kind and s == si]
+        if els:
+            sel = formal[fargs[0][0]].get("rec", 0) if isinstance(formal[fargs[0][0]], dict) else 0
+            conv = els[sel % len(els)]
+    if conv is not None:
+        s0, r0, m0 = conv
+        # the element itself is the first formal argument
+        m["attrs"] = [(a, v) for (a, v) in m["attrs"] if a != spec.PROV_NS + fargs[0][0]]
+        m["attrs"].insert(0, (spec.PROV_NS + fargs[0][0], ("qn", m0["id"])))
+        pos = [kwargs.get(arg) for arg, _ in fargs[1:]]
+        before = len(scope.get_records())
+        if takes_attrs:
+            getattr(r0, meth_name)(*pos, attributes=other)
+        else:
+            getattr(r0, meth_name)(*pos)
+        rec = scope.get_records()[-1]
+        if not takes_attrs and other:
+            rec.add_attributes(other)
+        b.stats["via:convenience"] += 1
+    elif via == "new_record" or (ident is not None and not fac_id):
         PROV = Namespace("prov", spec.PROV_NS)
         fa = [(PROV[arg], v) for arg, v in kwargs.items()]
         rec = scope.new_record(PROV[tname], id_py, fa, other)
@@ -349,7 +384,7 @@ def _apply_rec2(b, op, inherit, dry=False):
             rec = meth(**kwargs)
             if other:
                 rec.add_attributes(other)
-        b.stats["via:" + via] += 1
+        b.stats["via:" + ("factory" if via == "convenience" else via)] += 1
     b.model[si].append(m)
     b.records.append((si, rec, m))
     b.stats["kind:" + kind] += 1
